@@ -6,6 +6,6 @@ export GOFLAGS=-mod=mod GOPROXY=off GOSUMDB=off GOTOOLCHAIN=local
 mkdir -p .build evidence replays
 (cd harness && go build -o ../.build/extract ./cmd/extract)
 ./.build/extract -repo /repo -out lean/Generated/Tables.lean -facts .build/facts.json
-(cd lean && lake build && lake build $(grep -o 'name = "drv_[a-z0-9_]*"' lakefile.toml | cut -d'"' -f2))
+(cd lean && lake build && for d in $(grep -o 'name = "drv_[a-z0-9_]*"' lakefile.toml | cut -d'"' -f2); do r=$(grep -A1 "name = \"$d\"" lakefile.toml | grep root | cut -d'"' -f2 | tr . /); if [ -f "$r.lean" ]; then lake build $d; fi; done)
 for d in harness/cmd/*/; do n=$(basename $d); [ "$n" = extract ] && continue; (cd harness && go build -tags verif -o ../.build/$n ./cmd/$n); done
 echo setup-ok
